@@ -257,6 +257,41 @@ func (w *wal) flush(batch WALBatch) error {
 	return nil
 }
 
+// redoRootMove makes the page table row that points at oldRoot point at
+// newRoot.
+func redoRootMove(fs *fileStore, oldRoot uint64, newRoot uint64, lsn uint64) error {
+	pgTablePg, err := fs.fetch(fs.pageTableRoot)
+	if err != nil {
+		return err
+	}
+
+	bt := &BTree{store: fs}
+	bt.setRoot(pgTablePg)
+
+	return bt.scanRight(func(cell *leafCell) (ScanAction, error) {
+		tuple := Tuple{
+			Relation: &pageTableSchema,
+			Vals:     make(map[string]interface{}),
+		}
+		if err := tuple.Decode(bytes.NewBuffer(cell.valueBytes)); err != nil {
+			return StopScanning, err
+		}
+		if tuple.Vals["file_offset"] != int64(oldRoot) {
+			return KeepScanning, nil
+		}
+		tuple.Vals["file_offset"] = int64(newRoot)
+		buf, err := tuple.Encode()
+		if err != nil {
+			return StopScanning, err
+		}
+		if err := cell.pg.updateCell(cell.key, buf.Bytes()); err != nil {
+			return StopScanning, err
+		}
+		cell.pg.markDirty(lsn)
+		return StopScanning, nil
+	})
+}
+
 func (w WALBatch) replay(fs *fileStore) error {
 	for _, row := range w {
 		// never move the LSN counter backwards: operations that are not logged
@@ -284,6 +319,14 @@ func (w WALBatch) replay(fs *fileStore) error {
 			// would reissue ids consumed by failed inserts
 			if row.cellID > fs.lastKey {
 				fs.lastKey = row.cellID
+			}
+			if bt.rootOffset != row.pageID {
+				// the redone insert split the root. the record of the root move
+				// follows this one in the log but may have been lost in the
+				// crash, so redo the catalog update here
+				if err := redoRootMove(fs, row.pageID, bt.rootOffset, row.LSN); err != nil {
+					return err
+				}
 			}
 
 		case OpUpdate:
